@@ -178,7 +178,8 @@ def run_unit(path, tier="quick", overlay=None, tag=""):
             if real_fail:
                 o.status = "FAILED"
                 o.detail = "\n".join("%s: %s @ %s" % c for c in real_fail[:10])
-                cex = playback(crate, env, flags, h)
+                # seeded-break variants only need the verdict; the (slow) concrete playback is for real violations
+                cex = None if tag.startswith(("b", "h")) and tag[1:].isdigit() else playback(crate, env, flags, h)
                 if cex:
                     o.counterexample = cex
                     o.detail += "\nconcrete values (kani --concrete-playback=print): " + json.dumps(cex)[:1500]
